@@ -13,7 +13,9 @@
 (* Raw (negative control: EndInside and ReEncode fail).                                               *)
 EXTENDS Naturals, Sequences, FiniteSets, TLC, SequencesExt
 
-CONSTANTS Lenient, Alphabet, MaxLen, Formats
+CONSTANTS Lenient, Alphabet, MaxLen, Formats,
+          ArrBE     \* byte order of an array's count: DefaultArray registers its count format as "H" (native order);
+                    \* which order is *right* is C02's question, C03 only needs the count to be honoured
 
 Huge == 1000000      \* stands for every 4-byte length >= 2^16: no datagram is that long
 
@@ -75,7 +77,7 @@ DecItem(it, b, off) ==
   ELSE IF ArrItem(n) > 0 THEN
        LET s == ArrItem(n) IN
        IF off + 2 > L THEN Err
-       ELSE LET cnt == b[off + 1] + 256 * b[off + 2]    \* DefaultArray packs its count with format "H": native order
+       ELSE LET cnt == IF ArrBE THEN U(b, off, 2) ELSE b[off + 1] + 256 * b[off + 2]
                 size == cnt * s
                 avail == L - (off + 2)
             IN IF size <= avail THEN Ok(off + 2 + size, Sh("arr", <<>>, cnt, <<>>, Slice(b, off + 2, size)))
@@ -149,7 +151,7 @@ EncItem(it, s) ==
   IF FixSize(n) > 0 THEN s.r
   ELSE IF n = "raw" THEN s.b
   ELSE IF VarW(n) > 0 THEN BE(Len(s.b) \div VarBase(n), VarW(n)) \o s.b
-  ELSE IF ArrItem(n) > 0 THEN <<s.n % 256, s.n \div 256>> \o s.r
+  ELSE IF ArrItem(n) > 0 THEN (IF ArrBE THEN BE(s.n, 2) ELSE <<s.n % 256, s.n \div 256>>) \o s.r
   ELSE IF n \in {"address", "ip_address"} THEN
        (IF s.n = 2 THEN <<2>> \o BE(Len(s.b), 2) \o s.b \o s.r ELSE <<s.n>> \o s.r)
   ELSE IF n \in {"varlenH-list", "node-list", "payload-list"} THEN <<s.n>> \o EncMany(ListItem(it), s.sub)
